@@ -39,7 +39,7 @@ EXPECT = {"a": ("Node", {"name", "up", "items", "parent"}), "b": ("Leaf", {"name
 
 OPS = ["ok", "syntax", "unknown", "initfail", "procfail", "provfail", "nested-ok", "nested-syntax", "nested-unknown", "import-ok", "import-syntax",
        "import-unknown", "import-procfail", "matchfail", "import-missing"]
-KINDS = ["plain", "slots", "frozen", "custom"]
+KINDS = ["plain", "slots", "frozen", "custom", "defaults"]
 DUNDERS = ("__setattr__", "__delattr__", "__getattribute__", "__getattr__")
 
 
@@ -56,6 +56,25 @@ def make_classes(kind, log, ctl):
                 self.__dict__.update(kw)
 
         class Leaf:
+            def __init__(self, **kw):
+                body_init(self, kw)
+                self.__dict__.update(kw)
+    elif kind == "defaults":
+        # dataclass-style user classes: class-level defaults named like the grammar attributes (meta-model without auto-init)
+        class Node:
+            name = None
+            up = None
+            items = ()
+
+            def __init__(self, **kw):
+                body_init(self, kw)
+                self.__dict__.update(kw)
+
+        class Leaf:
+            name = "unnamed"
+            up = None
+            val = 0
+
             def __init__(self, **kw):
                 body_init(self, kw)
                 self.__dict__.update(kw)
@@ -144,7 +163,7 @@ class World:
         self.Node, self.Leaf = make_classes(kind, self.log, self.ctl)
         self.classes = (self.Node, self.Leaf)
         self.originals = {c: {m: c.__dict__.get(m) for m in DUNDERS} for c in self.classes}
-        self.mm = metamodel_from_str(GRAMMAR, classes=[self.Node, self.Leaf])
+        self.mm = metamodel_from_str(GRAMMAR, classes=[self.Node, self.Leaf], **({"auto_init_attributes": False} if kind == "defaults" else {}))
         self.dir = workdir
         w = self
 
